@@ -158,7 +158,7 @@ func (h *Handler) handleQuery(r *http.Request, w http.ResponseWriter, query *add
 	if query.Prop != nil {
 		var addressData addressDataReq
 		if err := query.Prop.Decode(&addressData); err != nil && !internal.IsNotFound(err) {
-			return err
+			return internal.HTTPErrorf(http.StatusBadRequest, "carddav: invalid address-data in request: %v", err)
 		}
 		req, err := decodeAddressDataReq(&addressData)
 		if err != nil {
@@ -213,7 +213,7 @@ func (h *Handler) handleMultiget(ctx context.Context, w http.ResponseWriter, mul
 	if multiget.Prop != nil {
 		var addressData addressDataReq
 		if err := multiget.Prop.Decode(&addressData); err != nil && !internal.IsNotFound(err) {
-			return err
+			return internal.HTTPErrorf(http.StatusBadRequest, "carddav: invalid address-data in request: %v", err)
 		}
 		decoded, err := decodeAddressDataReq(&addressData)
 		if err != nil {
